@@ -282,7 +282,7 @@ package cdi
 //@   typeframe github.com/opencontainers/runtime-spec/specs-go
 //@   preserves github.com/opencontainers/runtime-spec/specs-go, tags.cncf.io/container-device-interface/specs-go
 //@   frametags C04
-//@   ensures CacheWF(c) && CacheBefore(c, allocNow())
+//@   ensures CacheRep(c) && CacheBefore(c, allocNow())
 
 //@ func (e *ContainerEdits) Append(o *ContainerEdits) (r *ContainerEdits)
 //@   modifies e.ContainerEdits if e != nil, e.ContainerEdits.* if e != nil && e.ContainerEdits != nil
@@ -407,11 +407,19 @@ package cdi
 //@ guarded Cache.{specDirs, specs, devices, errors, dirErrors, autoRefresh, watch} by Cache.Mutex
 //@ guarded watch.{watcher, tracked} by Cache.Mutex
 
+// representation invariant of a Cache built by newCache
+//@ pred CacheRep(c *Cache) = c.watch != nil && CacheWF(c) &&
+//@        forall(v, string, has(c.specs, v), forall(i, 0 <= i && i < len(c.specs[v]), c.specs[v][i] != nil))
+//@ pred OptionsOK(options []Option) = forall(i, 0 <= i && i < len(options), options[i] != nil)
+
 //@ func newCache(options []Option) (c *Cache)
 //@   constructor
+//@   requires OptionsOK(options)
+//@   ensures c != nil
 //@ func (c *Cache) configure(options []Option)
 //@   requires c != nil
 //@   requires excl
+//@   requires c.watch != nil && OptionsOK(options)
 //@ func (c *Cache) refresh() (err error)
 //@   requires c != nil
 //@   requires excl
@@ -435,32 +443,50 @@ package cdi
 //@   requires c != nil
 //@   requires excl
 //@ func (w *watch) setup(dirs []string, dirErrors map[string]error)
-//@   requires w != nil
+//@   requires w != nil && dirErrors != nil
 //@   requires excl
+//@   modifies w.tracked, w.watcher, *dirErrors
 //@   acquires guarded dirErrors
 //@ func (w *watch) start(m *sync.Mutex, refresh func() error, dirErrors map[string]error)
-//@   requires w != nil
+//@   requires w != nil && m != nil && refresh != nil && dirErrors != nil
 //@   requires excl
+//@   pure
 //@ func (w *watch) stop()
 //@   requires w != nil
 //@   requires excl
+//@   modifies w.tracked
 //@ func (w *watch) update(dirErrors map[string]error, removed []string) (r bool)
-//@   requires w != nil
+//@   requires w != nil && dirErrors != nil && implies(len(removed) > 0, w.tracked != nil)
 //@   requires excl
+//@   modifies *w.tracked, *dirErrors
 //@   acquires guarded dirErrors
 //@ func (w *watch) watch(fsw *fsnotify.Watcher, m *sync.Mutex, refresh func() error, dirErrors map[string]error)
-//@   requires w != nil && m != nil
+//@   requires w != nil && m != nil && refresh != nil && dirErrors != nil
 //@   requires !held
 //@   acquires guarded dirErrors
+//@ func WithSpecDirs(dirs []string) (o Option)
+//@   pure
+//@   ensures o != nil
+//@ func WithAutoRefresh(autoRefresh bool) (o Option)
+//@   pure
+//@   ensures o != nil
 //@ func WithSpecDirs$1(c *Cache)
 //@   requires c != nil
 //@   requires excl
+//@   modifies c.specDirs
 //@ func WithAutoRefresh$1(c *Cache)
 //@   requires c != nil
 //@   requires excl
+//@   modifies c.autoRefresh
 // run by sync.Once.Do from the public default-cache functions, which do not hold the mutex
 //@ func getOrCreateDefaultCache$1()
 //@   requires !held
+//@   requires OptionsOK(options)
+//@ func GetDefaultCache() (c *Cache)
+//@   ensures c != nil && CacheRep(c)
+//@ func NewCache(options []Option) (c *Cache, err error)
+//@   requires OptionsOK(options)
+//@   ensures c != nil
 
 
 // ---------------------------------------------------------------- cache.go refresh, spec-dirs.go scanSpecDirs (C01, C13)
@@ -555,3 +581,47 @@ package cdi
 //@   requires scanFn != nil && scanMark <= allocNow()
 //@   ensures[C13] err == nil
 //@   loop 1 invariant scanFn != nil && scanMark <= allocNow()
+
+
+// ---------------------------------------------------------------- thin safety contracts (C08)
+// Preconditions that exclude programmer errors (nil receivers, nil *cdi.Spec arguments, indices outside
+// the slice handed to sort); they are checked at every call site inside the repository.
+
+//@ func (m orderedMounts) Len() (r int)
+//@   pure
+//@   ensures r == len(m)
+//@ func (m orderedMounts) Less(i, j int) (r bool)
+//@   pure
+//@   requires 0 <= i && i < len(m) && 0 <= j && j < len(m)
+//@ func (m orderedMounts) Swap(i, j int)
+//@   requires 0 <= i && i < len(m) && 0 <= j && j < len(m)
+//@ func (m orderedMounts) parts(i int) (r int)
+//@   pure
+//@   requires 0 <= i && i < len(m)
+
+//@ func GenerateNameForSpec(raw *cdi.Spec) (name string, err error)
+//@   pure
+//@   requires raw != nil
+//@ func GenerateNameForTransientSpec(raw *cdi.Spec, transientID string) (name string, err error)
+//@   pure
+//@   requires raw != nil
+//@ func MinimumRequiredVersion(spec *cdi.Spec) (v string, err error)
+//@   pure
+//@   requires spec != nil
+
+// sync.Once: the initialiser has run when Do returns (trusted)
+//@ func getOrCreateDefaultCache(options []Option) (c *Cache, created bool)
+//@   trusted
+//@   pure
+//@   ensures c != nil && CacheRep(c)
+
+//@ func (c *Cache) Configure(options []Option) (err error)
+//@   requires c != nil && CacheRep(c) && OptionsOK(options)
+//@ func (c *Cache) WriteSpec(raw *cdi.Spec, name string) (err error)
+//@   requires c != nil && raw != nil
+//@ func (c *Cache) GetSpecErrors(spec *Spec) (r []error)
+//@   requires c != nil && spec != nil
+//@ func (c *Cache) ListClasses() (r []string)
+//@   requires c != nil && CacheRep(c)
+//@ func Configure(options []Option) (err error)
+//@   requires OptionsOK(options)
